@@ -4,6 +4,7 @@ go 1.20
 
 require (
 	github.com/anishathalye/porcupine v1.3.0
+	github.com/goccy/go-yaml v1.11.2
 	github.com/golang-jwt/jwt/v4 v4.0.0
 	github.com/nats-io/nats-server/v2 v2.10.4
 	github.com/nats-io/nats.go v1.31.0
@@ -26,7 +27,6 @@ require (
 	github.com/go-audio/riff v1.0.0 // indirect
 	github.com/go-audio/wav v1.0.0 // indirect
 	github.com/go-ocf/go-coap v0.0.0-20200224085725-3e22e8f506ea // indirect
-	github.com/goccy/go-yaml v1.11.2 // indirect
 	github.com/godbus/dbus/v5 v5.1.0 // indirect
 	github.com/golang/protobuf v1.5.2 // indirect
 	github.com/google/uuid v1.3.0 // indirect
